@@ -586,7 +586,11 @@ func vectorPropertyTest(t *testing.T, id string, check func(vecCase) string, rul
 		}
 		evalEnum(c, "vector", cs, check, &nviol)
 	})
-	c.rapidStage("rapid", pick(320000, 3000000), func(rt *rapid.T) {
+	nrapid := pick(320000, 3000000)
+	if id == "C09" { // C09's cases are the most expensive (twins, related vectors) and it has the flood besides
+		nrapid = pick(200000, 3000000)
+	}
+	c.rapidStage("rapid", nrapid, func(rt *rapid.T) {
 		ver := rapid.SampledFrom([]int{2, 3}).Draw(rt, "version")
 		lvs := []spec.Level{spec.Base, spec.Temporal, spec.Environmental}
 		lv := rapid.SampledFrom(lvs[minLevel:]).Draw(rt, "decoder")
@@ -672,7 +676,7 @@ func quickVec(r *gen.Rng, ver int, lv spec.Level) spec.Vec {
 // anything keyed by less than the whole input shows here and nowhere else: the probability
 // per decode is small, so the number of decodes is what counts.
 func c09Flood(c *ctx) {
-	per := int(pick(150000, 1500000))
+	per := int(pick(120000, 1500000))
 	nviol := 0
 	origin := map[string]string{} // canonical encoding -> the string that was decoded (for the replay file)
 	r := gen.NewRng(uint64(seed)*7919 + uint64(shard) + 1)
